@@ -77,6 +77,10 @@ def kernel_cases(ctx, n_inputs, stream, res, stats):
         ts, info = sc.gen_input(rng, unary_bias=0.2)
         if ts.num_edges == 0:
             continue
+        if rng.random() < 0.3:
+            # flag bits other than NODE_IS_SAMPLE must not change who counts as a sample by default
+            ts, fmode = sc.add_flag_bits(ts, rng, mode="random")
+            info["fired"] = list(info["fired"]) + ["flag_bits"]
         for f in info["fired"]:
             stats["fired"][f] = stats["fired"].get(f, 0) + 1
         tb0 = sc.tables_of(ts)
